@@ -816,3 +816,42 @@ func init() {
 		}
 	}
 }
+
+// ---- sync.Pool (model): a per-pool free list; Get returns a pooled object or New() ----
+func init() {
+	intrinsics["(*sync.Pool).Get"] = func(e *Exec, a []Value) Value {
+		p := a[0].(Ptr)
+		if p.slot == nil {
+			e.gopanic("nil pointer dereference (sync.Pool)")
+		}
+		e.modelsUsed["sync.Pool (model)"]++
+		if e.pools == nil {
+			e.pools = map[*Value][]Value{}
+		}
+		if l := e.pools[p.slot]; len(l) > 0 {
+			v := l[len(l)-1]
+			e.pools[p.slot] = l[:len(l)-1]
+			return v
+		}
+		st := (*p.slot).(Struct)
+		nf := st[len(st)-1]
+		if _, isNil := nf.(NilFunc); isNil {
+			return Iface{}
+		}
+		return e.call(nf, nil, 0)
+	}
+	intrinsics["(*sync.Pool).Put"] = func(e *Exec, a []Value) Value {
+		p := a[0].(Ptr)
+		if p.slot == nil {
+			e.gopanic("nil pointer dereference (sync.Pool)")
+		}
+		if e.pools == nil {
+			e.pools = map[*Value][]Value{}
+		}
+		if it, ok := a[1].(Iface); ok && it.t == nil {
+			return nil
+		}
+		e.pools[p.slot] = append(e.pools[p.slot], a[1])
+		return nil
+	}
+}
